@@ -118,11 +118,46 @@ func c18Program(w *fw.W, idx int) ([]*sx.N, string, map[string]bool) {
 	if idx%10 == 3 {
 		return c18TailLoopProgram(r), "tail-loop-failure", map[string]bool{"tail-loop-failure": true}
 	}
+	if idx%10 == 7 {
+		return c18NestedLoadProgram(r), "nested-load-failure", map[string]bool{"nested-load-failure": true}
+	}
 	p := gen.DefaultProfile()
 	p.Hostile = []int{25, 50, 90, 15}[idx%4]
 	p.MaxDepth = []int{5, 4, 3, 6}[idx%4]
 	g := gen.New(r, p)
 	return g.Program(), "generated", g.Feat
+}
+
+// c18NestedLoadProgram: the failing form is written in a source loaded by load-string
+// (very often as that source's FIRST form, at offset 0) and the load is called from
+// inside a function, a binding form, a handler, an argument position.
+func c18NestedLoadProgram(r *fw.RNG) []*sx.N {
+	fail := fw.Pick(r, []*sx.N{sx.Call("car", sx.I(5)), sx.Call("error", sx.QY("boom"), sx.S("first form")), sx.Y("no-such-symbol"), sx.Call("cons", sx.I(1)), sx.Call("nth", sx.Q(sx.L(sx.I(1))), sx.S("x"))})
+	var inner []*sx.N
+	if r.Chance(1, 3) {
+		inner = append(inner, sx.Call("set", sx.QY("before"), sx.I(1)))
+	}
+	inner = append(inner, fail, sx.I(2))
+	load := sx.Call("load-string", &sx.N{K: sx.Str, Prog: inner})
+	var forms []*sx.N
+	forms = append(forms, sx.Call("verif:probe", sx.QY("pre"), sx.I(1)))
+	switch r.Intn(7) {
+	case 0:
+		forms = append(forms, load)
+	case 1:
+		forms = append(forms, sx.Call("let", sx.L(sx.L(sx.Y("k"), sx.I(1))), load))
+	case 2:
+		forms = append(forms, sx.Call("defun", sx.Y("ld"), sx.L(), load), sx.Call("list", sx.I(1), sx.Call("ld")))
+	case 3:
+		forms = append(forms, sx.Call("handler-bind", sx.L(sx.L(sx.Y("condition"), sx.Call("lambda", sx.L(sx.Y("c"), sx.Y("&rest"), sx.Y("a")), sx.Call("rethrow")))), load))
+	case 4:
+		forms = append(forms, sx.Call("list", sx.I(1), load, sx.I(3)))
+	case 5:
+		forms = append(forms, sx.Call("map", sx.QY("list"), sx.Call("lambda", sx.L(sx.Y("x")), load), sx.Q(sx.L(sx.I(1)))))
+	default:
+		forms = append(forms, sx.Call("defun", sx.Y("ld2"), sx.L(sx.Y("x")), sx.Call("if", sx.Y("x"), load, sx.I(0))), sx.Call("let*", sx.L(sx.L(sx.Y("a"), sx.Call("ld2", sx.Y("true")))), sx.Y("a")))
+	}
+	return forms
 }
 
 // c18MacroProgram: a failing form either written inside a macro template (keeps
